@@ -163,6 +163,45 @@ func runBox(r *prng.R, s *out.Sink, tier string) {
 			s.Violate("C15", fmt.Sprintf("a message buffered at epoch 0 for a topic that did not start for %d expiry periods (expiry %d epochs) was never discarded: it is handed over when the topic finally starts", 4, expiry), strings.Join(hist, "\n"))
 		}
 	}
+	// steady traffic: the local party sends on a fresh topic every two epochs (less than the expiry period apart) for many
+	// expiry periods. The collection runs during Sends, at most once per expiry period — but it must keep running: what
+	// sender 7 parked at epoch 0 on topics that never start is discarded, and sender 7 is served on a fresh topic.
+	for _, expiry := range []int{3, 4, 6} {
+		rg := newBoxRig(2, expiry)
+		var hist []string
+		emit := func(kind string, op, ans string) string {
+			s.Op(kind, true, op, ans)
+			hist = append(hist, op+"   => "+ans)
+			return ans
+		}
+		emit("new", fmt.Sprintf("box new 2 100 %d", expiry), "ok")
+		for t := 0; t < 3; t++ {
+			nextID++
+			emit("steady/park", fmt.Sprintf("box recv 7 %d %d", 40+t, nextID), rg.recv(7, 40+t, nextID))
+		}
+		for k := 0; k < 5*expiry; k++ {
+			emit("steady/tick", "box tick", rg.tick())
+			emit("steady/tick", "box tick", rg.tick())
+			emit("steady/send", fmt.Sprintf("box send %d", k%30), rg.send(k%30))
+		}
+		if sn := rg.box.VerifSnapshot(); sn.BufferedMsgs != 0 || sn.PendingTopics != 0 || sn.InFlightTopics != 0 {
+			s.Violate("C15", fmt.Sprintf("under steady traffic (a Send every two epochs for %d epochs, expiry %d) data parked at epoch 0 on topics that never start was never discarded: %s", 10*expiry, expiry, rg.snap()), strings.Join(hist, "\n"))
+		}
+		nextID++
+		z := nextID
+		emit("steady/fresh", fmt.Sprintf("box recv 7 60 %d", z), rg.recv(7, 60, z))
+		ans := emit("steady/fresh-send", "box send 60", rg.send(60))
+		found := false
+		for _, f := range strings.Fields(strings.Split(ans, "|")[0]) {
+			var x int
+			if n, _ := fmt.Sscanf(f, "h%d", &x); n == 1 && x == z {
+				found = true
+			}
+		}
+		if !found {
+			s.Violate("C15", fmt.Sprintf("sender 7, silent for %d epochs (expiry %d) while the local party kept sending, is still throttled by its expired topics: its message on a fresh topic is not handed over", 10*expiry, expiry), strings.Join(hist, "\n"))
+		}
+	}
 	for h := 0; h < histories; h++ {
 		maxTopics := 1 + r.Intn(4)
 		expiry := 2 + r.Intn(3)
